@@ -72,14 +72,37 @@ class Engine(ExprMixin, StmtMixin, CallMixin, EngineBase):
         if frag:
             # a contract on a fragment of a long function: the statements from `start` up to (excluding) `end`,
             # every free variable is a declared parameter of the fragment (arbitrary value of its type)
-            heads = [ast.unparse(n).split('\n')[0].strip() for n in fdef.body]
-            try:
-                i0 = next(i for i, h in enumerate(heads) if h.startswith(frag['start']))
-                i1 = next(i for i, h in enumerate(heads) if i > i0 and h.startswith(frag['end'])) if frag.get('end') \
-                    else len(fdef.body)
-            except StopIteration:
-                raise ContractError("%s: fragment anchors %r do not resolve" % (qual, frag))
-            body = fdef.body[i0:i1]
+            if frag.get('find'):
+                # a fragment nested anywhere in the function: the statement whose first line starts with `find`
+                # and its following `count - 1` siblings (the anchor must be unique)
+                hits = []
+                for n in ast.walk(fdef):
+                    for fld in ('body', 'orelse', 'finalbody'):
+                        blk = getattr(n, fld, None)
+                        if isinstance(blk, list):
+                            for i, ch in enumerate(blk):
+                                if isinstance(ch, ast.stmt) and ast.unparse(ch).split('\n')[0].strip().startswith(frag['find']):
+                                    hits.append((blk, i))
+                if len(hits) != 1:
+                    raise ContractError("%s: fragment anchor %r resolves %d times" % (qual, frag['find'], len(hits)))
+                blk, i0 = hits[0]
+                cnt = frag.get('count')
+                body = blk[i0:] if cnt is None else blk[i0:i0 + cnt]
+                if cnt is not None and len(body) != cnt:
+                    raise ContractError("%s: fragment %r: fewer than %d statements" % (qual, frag['find'], cnt))
+                for n, h in enumerate(frag.get('heads', [])):
+                    got = ast.unparse(body[n]).split('\n')[0].strip() if n < len(body) else None
+                    if got is None or not got.startswith(h):
+                        raise ContractError("%s: fragment statement %d is %r, expected %r" % (qual, n, got, h))
+            else:
+                heads = [ast.unparse(n).split('\n')[0].strip() for n in fdef.body]
+                try:
+                    i0 = next(i for i, h in enumerate(heads) if h.startswith(frag['start']))
+                    i1 = next(i for i, h in enumerate(heads) if i > i0 and h.startswith(frag['end'])) if frag.get('end') \
+                        else len(fdef.body)
+                except StopIteration:
+                    raise ContractError("%s: fragment anchors %r do not resolve" % (qual, frag))
+                body = fdef.body[i0:i1]
             params = list(c.params)
         is_method = len(qual.split('.')) == 3 and params and params[0] == 'self'
         for p in params:
@@ -106,6 +129,11 @@ class Engine(ExprMixin, StmtMixin, CallMixin, EngineBase):
         self.last_paths = len(outs)
         canary_done = False
         for s1, kind, val in outs:
+            if frag and frag.get('continue_exit'):
+                # the fragment sits in a loop body: leaving it by `continue` is an exit of its own (flag _continued)
+                s1.frames[self.entry_fid]['_continued'] = VBool(kind == 'continue')
+                if kind == 'continue':
+                    kind = 'normal'
             if kind in ('normal', 'return'):
                 res = NONE if kind == 'normal' else val
                 if c.generator:
